@@ -494,3 +494,141 @@ def table_op(prog, env, op, variants=("lt",), procs=None):
     with ctx.Pool(procs) as pool:
         res = pool.map(_worker, chunks)
     return [r for part in res for r in part]
+
+
+# --------------------------------------------------------------------------- range level with concrete interval shapes
+
+def _weak_orders_fast(names):
+    """weak orderings via ordered set partitions (faster than filtering products for 6 names)"""
+    names = list(names)
+    if not names:
+        yield {}
+        return
+    first, rest = names[0], names[1:]
+    for w in _weak_orders_fast(rest):
+        k = (max(w.values()) + 1) if w else 0
+        # put `first` into an existing block
+        for r in range(k):
+            d = dict(w)
+            d[first] = r
+            yield d
+        # or into a new block at position p (0..k)
+        for p in range(k + 1):
+            d = {n: (r + 1 if r >= p else r) for n, r in w.items()}
+            d[first] = p
+            yield d
+
+
+RANGE_SHAPES_QUICK = [("I", "I"), ("E", "E")]
+RANGE_SHAPES_THOROUGH = [("I", "I"), ("E", "E"), ("I", "E"), ("E", "I")]
+
+
+def range_cases(na, nb, shapes):
+    """(A, B, world): lists of decoded intervals over tokens a0l,a0h,…,b0l,…; every interval bounded on both sides,
+    one shape for all intervals of a case"""
+    names = []
+    for i in range(na):
+        names += ["a%dl" % i, "a%dh" % i]
+    for i in range(nb):
+        names += ["b%dl" % i, "b%dh" % i]
+    for (lo, up) in shapes:
+        for w in _weak_orders_fast(names):
+            A = [(("L", lo, vtok("a%dl" % i, w["a%dl" % i])), ("U", up, vtok("a%dh" % i, w["a%dh" % i]))) for i in range(na)]
+            B = [(("L", lo, vtok("b%dl" % i, w["b%dl" % i])), ("U", up, vtok("b%dh" % i, w["b%dh" % i]))) for i in range(nb)]
+            if all(cut(s[0]) < cut(s[1]) for s in A + B):
+                yield A, B, w
+
+
+def _segments(sets_list):
+    """membership vector over the elementary segments of the cut line"""
+    cuts = sorted(set(c for sets in sets_list for s in sets for c in (cut(s[0]), cut(s[1]))))
+    return cuts
+
+
+def _member(sets, lo, hi):
+    return any(cut(s[0]) <= lo and hi <= cut(s[1]) for s in sets)
+
+
+def eval_range_case(prog, env, op, A, B, w):
+    run = Run(prog, env, "lt")
+    RA = Adt("range::Range", 0, (ListV([build_set(env, s) for s in A]),))
+    RB = Adt("range::Range", 0, (ListV([build_set(env, s) for s in B]),))
+    status, val = run.call("range::Range::" + op, [Ptr(Cell(RA)), Ptr(Cell(RB))])
+    it = run.interp
+    out = {"op": op, "key": "A=%s B=%s order:%s" % ("||".join(sstr(s) for s in A), "||".join(sstr(s) for s in B), order_str(w)),
+           "status": status, "sig": path_sig(it), "problems": [], "na": len(A), "nb": len(B),
+           "example": "%s  vs  %s" % (" || ".join(example_text(s) for s in A), " || ".join(example_text(s) for s in B))}
+    sp = it.ret_span.get("range::Range::" + op)
+    out["ret"] = prog.span_str(sp) if sp else None
+    if status == "panic":
+        out["problems"].append(("panic", str(val)))
+        return out
+    if status == "inconclusive":
+        out["inconclusive"] = (val.reason, val.where)
+        return out
+    cuts = sorted(set(c for s in A + B for c in (cut(s[0]), cut(s[1]))))
+    segs = list(zip(cuts, cuts[1:]))
+    inA = [_member(A, lo, hi) for lo, hi in segs]
+    inB = [_member(B, lo, hi) for lo, hi in segs]
+    try:
+        if op in ("intersect", "difference"):
+            exp = [a and b for a, b in zip(inA, inB)] if op == "intersect" else [a and not b for a, b in zip(inA, inB)]
+            if not is_some(val):
+                got = [False] * len(segs)
+                res = []
+            else:
+                rng = it.strip(val.fields[0])
+                lst = it.strip(rng.fields[0])
+                res = [env.dec_set(it, x) for x in lst.items]
+                for r in res:
+                    if r[0][0] != "L" or r[1][0] != "U" or not cut(r[0]) < cut(r[1]):
+                        out["problems"].append(("invalid-interval", sstr(r)))
+                # result cuts may not be on the operand grid when wrong: refine the grid
+                allcuts = sorted(set(cuts + [c for r in res for c in (cut(r[0]), cut(r[1]))]))
+                segs2 = list(zip(allcuts, allcuts[1:]))
+                got = [_member(res, lo, hi) for lo, hi in segs2]
+                inA2 = [_member(A, lo, hi) for lo, hi in segs2]
+                inB2 = [_member(B, lo, hi) for lo, hi in segs2]
+                exp = [a and b for a, b in zip(inA2, inB2)] if op == "intersect" else [a and not b for a, b in zip(inA2, inB2)]
+            out["actual"] = "None" if not is_some(val) else " || ".join(sstr(r) for r in res)
+            if got != exp:
+                out["problems"].append(("wrong-set", "the result does not cover exactly the expected part of the version line"))
+            if is_some(val) and not any(exp):
+                out["problems"].append(("some-but-empty", "Some returned for an empty set"))
+            if not is_some(val) and any(exp):
+                out["problems"].append(("none-but-nonempty", "None returned although versions remain"))
+        elif op == "allows_any":
+            exp = any(a and b for a, b in zip(inA, inB))
+            out["actual"], out["expected"] = val, exp
+            if val != exp:
+                out["problems"].append(("overlap", "answered %s, the ranges %s" % (val, "overlap" if exp else "are disjoint")))
+        elif op == "allows_all":
+            out["actual"] = val
+            if len(B) == 1 and val is True and not all(a or not b for a, b in zip(inA, inB)):
+                out["problems"].append(("containment", "answered true although B is not inside A"))
+    except Inconclusive as e:
+        out["inconclusive"] = (e.reason, e.where)
+    return out
+
+
+def _range_worker(args):
+    op, chunk = args
+    prog, env = _STATE["prog"], _STATE["env"]
+    return [eval_range_case(prog, env, op, A, B, w) for (A, B, w) in chunk]
+
+
+def range_table(prog, env, op, sizes, shapes, procs=None, stride=1):
+    import multiprocessing as mp
+    import os
+    cases = []
+    for (na, nb) in sizes:
+        cs = list(range_cases(na, nb, shapes))
+        cases += cs[::stride]
+    _STATE["prog"], _STATE["env"] = prog, env
+    procs = procs or min(16, os.cpu_count() or 1)
+    n = max(1, len(cases) // (procs * 8))
+    chunks = [(op, cases[i:i + n]) for i in range(0, len(cases), n)]
+    ctx = mp.get_context("fork")
+    with ctx.Pool(procs) as pool:
+        res = pool.map(_range_worker, chunks)
+    return [r for part in res for r in part]
